@@ -40,7 +40,7 @@ def gen_script(rnd):
             r = rnd.random()
             if r < 0.7:
                 ops.append(["send", rnd.choice(S.KINDS), rnd.choice(POLS),
-                            rnd.choice(["inline", "inline", "hdr"])])
+                            rnd.choice(["inline", "inline", "hdr", "hdr_same"])])
             else:
                 ops.append(["adv", rnd.choice([0.1, 0.5, 0.49, 1.0, 1.01, 3, 29, 31, 60, 121,
                                                400, 3599, 3601])])
@@ -96,6 +96,21 @@ def directed():
                    + [["send", S.KINDS[i % 3], "hour", "inline"] for i in range(10)]
                    + [["adv", wait], ["send", "zone_ctrl", "hour", "inline"],
                       ["net_default", "accept", 0.0], ["adv", 2.5], ["q"]])
+    # two held messages that carry the same packet number (a caller numbering its own packets,
+    # or the counter after 256 sends): one expires, the other one is not its business
+    for first, second in (("long", "short"), ("short", "long"), ("long", "conn")):
+        out.append([["net_default", "refuse", 0.0],
+                    ["send", "zone_ctrl", first, "hdr_same"],
+                    ["send", "zone_ctrl", second, "hdr_same"],
+                    ["send", "ac_ctrl", "long", "inline"], ["adv", 1.2],
+                    ["send", "quick_timer", "idem", "inline"],
+                    ["net_default", "accept", 0.0], ["adv", 2.5], ["q"]])
+    # ... the counter itself coming round while the first message still waits
+    out.append([["net_default", "refuse", 0.0], ["send", "zone_ctrl", "hour", "inline"]]
+               + [["send", S.KINDS[i % 3], "zero", "inline"] for i in range(255)]
+               + [["send", "ac_ctrl", "short", "inline"], ["adv", 0.7],
+                  ["send", "quick_timer", "idem", "inline"],
+                  ["net_default", "accept", 0.0], ["adv", 2.5], ["q"]])
     # not open
     out.append([["close"], ["send", "zone_ctrl", "idem", "inline"],
                 ["send", "ac_ctrl", "long", "hdr"], ["open"], ["adv", 1.0],
